@@ -5,6 +5,10 @@
 # scratch directory so that committed evidence is not disturbed.
 set -u
 id=$1; tier=$2; shift 2
+mkdir -p /verif/.target
+exec 8>/verif/.target/.repo.lock
+flock -x 8
+export FV_REPO_LOCK_HELD=1
 cd /repo && git diff --quiet || { echo "/repo has uncommitted changes"; exit 2; }
 git -C /repo apply /verif/seeded/$id/patch.diff || { echo "patch does not apply"; exit 2; }
 export FV_EVIDENCE_DIR=/tmp/fv-seeded/$id/evidence FV_REPLAY_DIR=/tmp/fv-seeded/$id/replays
